@@ -504,5 +504,65 @@ Definition chk_C04 (n : netlist) (g : grid) (exp : list (string * (Z * Z))) : fa
   flat_map (c04_frame_router n) (n_rts n) ++
   flat_map (c04_pair n g exp) (ordered_pairs n).
 
+(* ---------------------------------------------------------------- C06: connectivity = description *)
+(* a directed hop of the request network: driver unit, its output port (routers), reader unit, its input port *)
+Definition uref_port (u : uref) : option Z := match u with UNi _ => None | URt _ i => Some (Z.of_nat i) end.
+Record hop := { h_from : string; h_fport : option Z; h_to : string; h_tport : option Z }.
+
+Definition emitted_hops (n : netlist) (nt : net) : list hop :=
+  flat_map (fun l => let '(ty, s) := l in
+              match net_of_type ty with
+              | Some nt' => if str_eqb (net_name nt) (net_name nt') then
+                              match drivers n nt s, readers n nt s with
+                              | [d], [r] => [{| h_from := uref_name d; h_fport := uref_port d;
+                                                h_to := uref_name r; h_tport := uref_port r |}]
+                              | _, _ => []
+                              end
+                            else []
+              | None => []
+              end) (n_links n).
+
+(* described link: (a, b, port named at a, port named at b); both directions are implied *)
+Definition dlink := (string * string * (option Z * option Z))%type.
+Definition port_compatible (named actual : option Z) : bool :=
+  match named, actual with
+  | None, _ => true
+  | Some p, Some q => p =? q
+  | Some _, None => true      (* a direction named at an endpoint's side carries no port *)
+  end.
+Definition hop_matches (a b : string) (pa pb : option Z) (h : hop) : bool :=
+  str_eqb (h_from h) a && str_eqb (h_to h) b && port_compatible pa (h_fport h) && port_compatible pb (h_tport h).
+Definition hop_str (h : hop) : string :=
+  h_from h +++ "[" +++ match h_fport h with Some p => ZS p | None => "-" end +++ "]->" +++
+  h_to h +++ "[" +++ match h_tport h with Some p => ZS p | None => "-" end +++ "]".
+
+Definition c06_net (n : netlist) (nt : net) (links : list dlink) : fails :=
+  let hops := emitted_hops n nt in
+  flat_map (fun l => let '(a, b, (pa, pb)) := l in
+              guard (existsb (hop_matches a b pa pb) hops) "link-missing"
+                    ("described link " +++ a +++ " -> " +++ b +++ " is not emitted on the " +++ net_name nt +++ " network (with the named ports)") ++
+              guard (existsb (hop_matches b a pb pa) hops) "link-missing"
+                    ("described link " +++ b +++ " -> " +++ a +++ " is not emitted on the " +++ net_name nt +++ " network (with the named ports)"))
+           links ++
+  flat_map (fun h => guard (existsb (fun l => let '(a, b, (pa, pb)) := l in
+                                       hop_matches a b pa pb h || hop_matches b a pb pa h) links)
+                           "link-not-described" ("emitted link " +++ hop_str h +++ " (" +++ net_name nt +++ ") is not described"))
+           hops ++
+  guard (Nat.eqb (length hops) (2 * length links)) "link-count"
+        (NS (length hops) +++ " directed " +++ net_name nt +++ " links emitted for " +++ NS (length links) +++ " described links").
+
+Definition chk_C06 (n : netlist) (links : list dlink) (ninis : nat) : fails :=
+  flat_map (fun nt => c06_net n nt links) (nets n) ++
+  guard (Nat.eqb (length (n_nis n)) ninis) "ni-count" "number of network interfaces differs from the number of endpoint instances" ++
+  flat_map (fun x => match ni_out Req x, ni_in Req x with
+                     | Some so, Some si =>
+                         match readers n Req so, drivers n Req si with
+                         | [URt r _], [URt r' _] =>
+                             guard (str_eqb r r') "ni-two-routers" (ni_name x +++ " sends to " +++ r +++ " but receives from " +++ r')
+                         | _, _ => one "ni-attachment" (ni_name x +++ " is not attached to exactly one router")
+                         end
+                     | _, _ => []
+                     end) (n_nis n).
+
 (* ---------------------------------------------------------------- wire format *)
 Definition fails_to_sx (f : fails) : sx := xL (fun p => L [A (fst p); A (sanitize (snd p))]) f.
